@@ -45,6 +45,24 @@ func (r *osconfResult) check(name string, ok bool, detail string) {
 	}
 }
 
+// waitCmd waits for a command with a time-out; on time-out the whole group is killed.
+func waitCmd(c *command.CmdWrapper) bool {
+	done := make(chan struct{})
+	go func() { _ = c.Wait(); close(done) }()
+	select {
+	case <-done:
+		return true
+	case <-time.After(20 * time.Second):
+		_ = c.Stop(9, false)
+		_ = c.Stop(9, true)
+		select {
+		case <-done:
+		case <-time.After(5 * time.Second):
+		}
+		return false
+	}
+}
+
 func waitFor(d time.Duration, f func() bool) bool {
 	deadline := time.Now().Add(d)
 	for time.Now().Before(deadline) {
@@ -95,7 +113,7 @@ func runOSConf(binary string) *osconfResult {
 	for _, code := range []int{0, 1, 3, 255} {
 		c := command.BuildCommand("sh", []string{"-c", fmt.Sprintf("exit %d", code)})
 		err := c.Start()
-		_ = c.Wait()
+		waitCmd(c)
 		r.check(fmt.Sprintf("exit-code-%d", code), err == nil && c.ExitCode() == code, fmt.Sprintf("ExitCode()=%d", c.ExitCode()))
 	}
 	// B. death by signal is reported as -1; ExitCode before Wait is -1 as well
@@ -105,7 +123,7 @@ func runOSConf(binary string) *osconfResult {
 		_ = c.Start()
 		before := c.ExitCode()
 		_ = c.Stop(15, false)
-		_ = c.Wait()
+		waitCmd(c)
 		r.check("signal-death-exit-code", c.ExitCode() == -1 && before == -1, fmt.Sprintf("before Wait %d, after %d", before, c.ExitCode()))
 	}
 	// C. pipes: bytes, unterminated tail with EOF, read after Wait fails with "file already closed"
@@ -116,7 +134,7 @@ func runOSConf(binary string) *osconfResult {
 		rd := bufio.NewReader(out)
 		l1, e1 := rd.ReadString('\n')
 		l2, e2 := rd.ReadString('\n')
-		_ = c.Wait()
+		waitCmd(c)
 		_, e3 := out.Read(make([]byte, 8))
 		ok := l1 == "a\n" && e1 == nil && l2 == "b" && e2 == io.EOF && e3 != nil && strings.Contains(e3.Error(), "file already closed")
 		r.check("pipe-eof-and-closed-after-wait", ok, fmt.Sprintf("%q,%v %q,%v after-wait:%v", l1, e1, l2, e2, e3))
@@ -126,7 +144,7 @@ func runOSConf(binary string) *osconfResult {
 		c := command.BuildCommand("sh", []string{"-c", "printf 'x\\n'"})
 		out, _ := c.StdoutPipe()
 		_ = c.Start()
-		_ = c.Wait()
+		waitCmd(c)
 		_, err := bufio.NewReader(out).ReadString('\n')
 		r.check("pipe-wait-before-read-loses-data", err != nil && err != io.EOF, fmt.Sprint(err))
 	}
@@ -135,7 +153,7 @@ func runOSConf(binary string) *osconfResult {
 		c := command.BuildCommand("sh", []string{"-c", "exit 0"})
 		c.SetCmdArgs()
 		_ = c.Start()
-		_ = c.Wait()
+		waitCmd(c)
 		err := c.Stop(15, po)
 		r.check(fmt.Sprintf("stop-after-reap-parentonly-%v", po), err != nil, fmt.Sprint(err))
 	}
@@ -148,7 +166,7 @@ func runOSConf(binary string) *osconfResult {
 		_ = c.Start()
 		up := waitFor(5*time.Second, func() bool { return len(pidsWithMarker(marker)) >= 4 })
 		_ = c.Stop(15, po)
-		_ = c.Wait()
+		waitCmd(c)
 		var ok bool
 		var n int
 		if po {
@@ -175,27 +193,29 @@ func runOSConf(binary string) *osconfResult {
 		time.Sleep(300 * time.Millisecond)
 		alive := len(pidsWithMarker(marker)) >= 1
 		_ = c.Stop(9, false)
-		_ = c.Wait()
+		waitCmd(c)
 		dead := waitFor(5*time.Second, func() bool { return len(pidsWithMarker(marker)) == 0 })
 		r.check("sigterm-ignored-sigkill-kills", alive && dead && c.ExitCode() == -1, fmt.Sprintf("alive-after-TERM=%v dead-after-KILL=%v code=%d", alive, dead, c.ExitCode()))
 		killMarker(marker)
 	}
 	// G. signal clamp: out-of-range values behave as SIGTERM, 1..31 are delivered as such
-	for _, sig := range []int{0, 32, -3, 2, 1} {
+	// (SIGUSR1/SIGUSR2 rather than SIGINT/SIGHUP: the latter are ignored - and cannot be trapped by a
+	// shell - when the check itself runs under nohup or as a background job)
+	for _, sig := range []int{0, 32, -3, 10, 12} {
 		dir, _ := os.MkdirTemp("", "vh-osconf-")
 		f := filepath.Join(dir, "got")
-		c := command.BuildCommand("sh", []string{"-c", fmt.Sprintf("trap 'echo TERM > %s; exit 0' TERM; trap 'echo INT > %s; exit 0' INT; trap 'echo HUP > %s; exit 0' HUP; echo ready > %s.r; while true; do sleep 0.05; done", f, f, f, f)})
+		c := command.BuildCommand("sh", []string{"-c", fmt.Sprintf("trap 'echo TERM > %s; exit 0' TERM; trap 'echo USR1 > %s; exit 0' USR1; trap 'echo USR2 > %s; exit 0' USR2; echo ready > %s.r; while true; do sleep 0.05; done", f, f, f, f)})
 		c.SetCmdArgs()
 		_ = c.Start()
 		waitFor(5*time.Second, func() bool { _, err := os.Stat(f + ".r"); return err == nil })
 		_ = c.Stop(sig, true)
-		_ = c.Wait()
+		waitCmd(c)
 		b, _ := os.ReadFile(f)
 		want := "TERM"
-		if sig == 2 {
-			want = "INT"
-		} else if sig == 1 {
-			want = "HUP"
+		if sig == 10 {
+			want = "USR1"
+		} else if sig == 12 {
+			want = "USR2"
 		}
 		r.check(fmt.Sprintf("signal-clamp-%d", sig), strings.TrimSpace(string(b)) == want, fmt.Sprintf("received %q want %s", strings.TrimSpace(string(b)), want))
 		os.RemoveAll(dir)
